@@ -18,11 +18,11 @@ CHECKS = {
  'C13': ('exploration', 'Case families over prior contents of the caller-owned configuration memory and heap poison bytes; accepted and byte-identical output required.', '7 C13', ''),
  'C14': ('exploration', 'Generated API programs with NULL-argument calls of every entry point and rejected-then-valid set_parameter; protocol model over the recorded history; blocked calls are decided deadlocks.', '7 C14', 'protocol-illegal orders are not generated'),
  'C15': ('exploration', 'Sessions torn down at every protocol point (incl. pictures in flight) for encoder and decoder, 1-3 sessions per process; thread/allocation/mutex/semaphore ledger must be empty and not grow.', '7 C15', 'ledger = objects created by library code through the wrapped primitives'),
- 'C16': ('fault_enumeration', 'Census of the K allocations and thread creations during init_handle/set_parameter/init (and decoder start-up) under the fixed schedule, then one run per injected failure: per-site first/last/middle occurrences (quick), every site x 32 and all k while budget lasts (thorough).', '7 C16', 'one fault per run; numbering stable under the non-preemptive schedule'),
+ 'C16': ('fault_enumeration', 'Census of the K allocations and thread creations during init_handle/set_parameter/init (and decoder start-up) under the fixed schedule, then one run per injected failure: per-site first/last/middle occurrences (quick), every site x 32 and all k while budget lasts (thorough).', '7 C16', 'one fault per run; numbering stable under the non-preemptive schedule; decoder faults are identified by the allocating function (SIMFAULT provenance, DESIGN.md 13.5), encoder faults by the destructor that crashes'),
  'C17': ('exploration', 'Solo runs vs 2-3 encoder instances in one simulated process with staggered init/teardown; per-instance output must equal the solo output; ASan.', '7 C17', 'interference is decided through its consequences; encoder instances only'),
  'C18': ('exploration', 'RC modes x qp bounds x fixed qindex offsets x rail-driving content; oracle on the independently parsed base_q_idx of every coded frame.', '7 C18', 'in this version the only no-scaling configuration is use_fixed_qindex_offsets=1'),
  'C19': ('exploration', 'Intra period x refresh type x hierarchy x length; model of intra positions + fresh-decoder suffix decode from every shown key frame.', '7 C19', 'scene change detection off'),
- 'C20': ('exploration', 'Tool on/off families on provoking content; header-level oracle via the independent parser and block-level counters from a guarded hook in the decoder parse path; tiles vs spec limits.', '7 C20', 'block-level counters come from the SVT decoder parsing the stream'),
+ 'C20': ('exploration', 'Tool on/off families on provoking content; header-level oracle via the independent parser and block-level counters from a guarded hook in the decoder parse path; tiles vs spec limits.', '7 C20', 'block-level counters come from the SVT decoder parsing the stream; the superres on-variant is encoded with TPL off (superres + TPL crashes, KF-C11-superres-tpl)'),
  'C21': ('exploration', 'Case families over caller buffer layouts (stride padding garbage, extra rows, scribble-and-free right after send, buffer reuse) on the ASan build; byte-identical output required.', '7 C21', ''),
  'C22': ('exploration', 'Streams longer than twice the order-hint period (quick) and than the 2048-deep reorder queues (thorough) with the C01/C03 oracles.', '7 C22', 'the order-hint helper clause (all (bits,a,b)) is a pure function: not decided by this family'),
  'C23': ('exploration', 'Component world: real EbSystemResourceManager.c/EbThreads.c with synthetic producers/consumers/releasers/shutdown under the schedule swarm; event ledger + payload exactly-once/order + decided lost wake-ups; ledger also runs over whole-encoder event traces.', '7 C23', 'clients are stubs; interleavings at synchronisation-operation granularity'),
@@ -42,7 +42,7 @@ def main():
      'setup_cmd': 'bin/verif setup',
      'hooks': {'guard': 'SVT_AV1_VERIF',
                'enable': 'bin/build-lib.sh adds -DSVT_AV1_VERIF (and -DNDEBUG) to CMAKE_C_FLAGS/CMAKE_CXX_FLAGS of the out-of-tree verification builds under /verif/.build/{plain,asan}; scheduling, clock, allocation and topology seams need no source change (link-time -Wl,--wrap, sim/wraps.txt)',
-               'baseline_off_cmd': 'cmake --build /repo/_build -j8 -- -k 0; ctest --test-dir /repo/_build -j8 --timeout 900',
+               'baseline_off_cmd': 'cmake --build /repo/_build -j8 && ctest --test-dir /repo/_build -j8 --timeout 900',
                'source_commits': [c.split()[0] for c in commits if c], 'add_only': True},
      'engines': [{'name': 'simworld', 'path': 'sim/simcore.c + worlds/*.cc,*.c + oracles/*.cc', 'serves_properties': sorted(CHECKS.keys()), 'kind_free_text': 'deterministic simulator: real pthreads parked on futexes, one baton holder; seeded scheduler policies; simulated OS objects, clock, machine, heap ledger and fault injection; reference decoders via dlopen'},
                  {'name': 'driver', 'path': 'bin/verif + py/vf/*.py', 'serves_properties': sorted(CHECKS.keys()), 'kind_free_text': 'case generation (swarm), parallel execution, oracles, reproduce-twice gate, minimisation, replay files, known findings, evidence'}],
